@@ -29,6 +29,13 @@ func c17Word(r *Rand, lo, hi int, script int) string {
 	if n > 4 && r.Chance(1, 10) {
 		rs[n/2] = '-'
 	}
+	// printf verbs and percent signs are ordinary text
+	if n > 2 && r.Chance(1, 12) {
+		rs[0] = '%'
+		if r.Bool() {
+			rs[1] = []rune("dsvqx%")[r.Intn(6)]
+		}
+	}
 	return string(rs)
 }
 
@@ -259,6 +266,22 @@ func c17Run(c *Ctx) {
 	}
 	// uniqueness of short/long inside each command was established by the generator for its own names; the
 	// replacement names are globally unique.
+	for _, cm := range d.Cmds[1:] {
+		// command names (and descriptions, shown under "Available commands") in the script as well
+		if nameScript != 0 && r.Bool() {
+			for try := 0; try < 10; try++ {
+				n := strings.Trim(c17Word(r, 2, 12, nameScript), "-%")
+				if n != "" && !used[n] && !strings.HasPrefix(n, "-") {
+					used[n] = true
+					cm.Name = n
+					break
+				}
+			}
+		}
+		if r.Chance(2, 3) {
+			cm.Desc = fmt.Sprintf("cd%03d ", cm.ID) + c17Word(r, 1, 9, script)
+		}
+	}
 	for _, cm := range d.Cmds {
 		if cm.Pos == nil {
 			continue
@@ -347,6 +370,13 @@ func c17Run(c *Ctx) {
 		return map[string]interface{}{"declaration": d.Describe(), "terminal_width": W, "effective_width": eff, "active_chain": cn, "rows": len(rows)}
 	})
 	pi := safely(func() {
+		if !routeA && c.K%7 == 0 && c.W.Pty != nil && c.W.Pty.ok {
+			// an earlier help at another terminal width must not influence this one
+			var discard bytes.Buffer
+			c.W.Pty.SetWidth(37 + int(c.K%200))
+			b.P.WriteHelp(&discard)
+			c.W.Pty.SetWidth(W)
+		}
 		if routeA {
 			var words []string
 			for _, cm := range chain {
